@@ -10,6 +10,10 @@ import vlib
 def feats(t):
     f = set()
     for fl in t['fields']:
+        if fl['kind'] == 'tri':
+            f.add('struct-array')
+        if fl['tag'] in ('-,public', '-,secret'):
+            f.add('dash-name')
         if fl['kind'] in ('struct', 'ptr', 'emb'):
             if fl['kind'] != 'struct':
                 f.add(fl['kind'])
